@@ -21,7 +21,13 @@
 (* Probe events carry the listener that was asked (tr = "ip": server_ip.go,*)
 (* tr = "scion": server_scion.go, SCION/UDP over an empty path): both      *)
 (* listeners are judged by the same clauses and the same ReplyFor.         *)
+(* "stale" / "stray": the proxy handed the client an earlier reply of the   *)
+(* server while it was waiting / after its call had returned (facts about   *)
+(* the network; what the client made of it shows in the pool recorded with  *)
+(* the next "done" / "stray").                                              *)
 (* Behaviours are concatenated; "reset" starts a new one.                  *)
+(* The cfg _c12 evaluates, on the same records, the clause of C12 (property *)
+(* section of KeyProvider.tla) about the key new cookies are sealed with.   *)
 (***************************************************************************)
 EXTENDS Integers, Sequences, FiniteSets, TLC, Json
 
@@ -39,19 +45,22 @@ Horizon == 0
 MaxEx   == 0
 ProbeNs == {}
 ProbeUids == {}
+MaxOld == 0
 
-VARIABLES now, prov, pool, sess, used, seen, phase, net, rep, pre, clean, nex, nextId, obs,
+VARIABLES now, prov, pool, sess, used, seen, phase, net, rep, pre, clean, nex, nextId, obs, old, tries,
           l,     \* position of the last event consumed
           aux    \* what the harness observed besides the model state (real decryption results, flags)
 INSTANCE NtsCookies
 tvars == <<vars, l, aux>>
 
-NoAux == [opens |-> TRUE, lens |-> TRUE, ans |-> TRUE, kv |-> TRUE, phlen |-> TRUE, fn |-> FALSE]
+NoAux == [opens |-> TRUE, lens |-> TRUE, ans |-> TRUE, kv |-> TRUE, phlen |-> TRUE, fn |-> FALSE, nas |-> << >>]
 
 RangeOf(s) == {s[i] : i \in DOMAIN s}
 ProvOf(pj) == [keys |-> [i \in {k.id : k \in RangeOf(pj.keys)} |->
                            (CHOOSE k \in RangeOf(pj.keys) : k.id = i).nb],
                cur |-> pj.cur, gen |-> pj.gen]
+\* NotAfter of the keys the provider holds (model units), by key id
+NasOf(pj) == [i \in {k.id : k \in RangeOf(pj.keys)} |-> (CHOOSE k \in RangeOf(pj.keys) : k.id = i).na]
 AllOpen(cs) == \A i \in DOMAIN cs : cs[i].opens
 AllLen(cs)  == \A i \in DOMAIN cs : cs[i].len = CookieLen
 
@@ -64,6 +73,10 @@ TNext ==
   /\ l < Len(Trace)
   /\ l' = l + 1
   /\ nex' = 0 /\ nextId' = 0
+  /\ old' = << >>       \* (the network's memory is the proxy's; the clauses do not refer to it)
+  \* datagrams other than the genuine reply handed to the client during the current call
+  /\ tries' = (LET e == Trace[l + 1] IN
+                IF e.ev = "stale" THEN tries + 1 ELSE IF e.ev \in {"reset", "req", "done"} THEN 0 ELSE tries)
   /\ LET e == Trace[l + 1] IN
      \/ /\ e.ev = "reset"
         /\ now' = 0 /\ prov' = ProvOf(e.prov)
@@ -81,7 +94,7 @@ TNext ==
         /\ rep' = [k |-> "ke", n |-> 8, u |-> OwnUid, cookies |-> e.cookies, sess |-> e.sess, size |-> 0, bad |-> FALSE]
         /\ seen' = seen \cup Ids(e.cookies)
         /\ obs' = "rekey"
-        /\ aux' = [NoAux EXCEPT !.opens = AllOpen(e.cookies), !.lens = AllLen(e.cookies)]
+        /\ aux' = [NoAux EXCEPT !.opens = AllOpen(e.cookies), !.lens = AllLen(e.cookies), !.nas = NasOf(e.prov)]
         /\ UNCHANGED <<now, used, phase, net, pre, clean>>
      \/ /\ e.ev = "fpool"      \* function level: a pool of p cookies handed to NewRequestPacket
         /\ prov' = ProvOf(e.prov)
@@ -122,7 +135,7 @@ TNext ==
         /\ rep' = [k |-> "ntp", n |-> e.n, u |-> e.u, cookies |-> e.cookies, sess |-> e.sess, size |-> e.size, bad |-> e.bad]
         /\ seen' = seen \cup Ids(e.cookies)
         /\ obs' = "serve"
-        /\ aux' = [NoAux EXCEPT !.opens = AllOpen(e.cookies), !.lens = AllLen(e.cookies)]
+        /\ aux' = [NoAux EXCEPT !.opens = AllOpen(e.cookies), !.lens = AllLen(e.cookies), !.nas = NasOf(e.prov)]
         /\ UNCHANGED <<now, pool, sess, used, pre, clean>>
      \/ /\ e.ev = "norep"
         /\ phase' = "wait" /\ net' = NoMsg /\ rep' = NoMsg /\ clean' = FALSE
@@ -139,8 +152,9 @@ TNext ==
         /\ obs' = IF e.ok THEN "store" ELSE "fail"
         \* a reply handed to the client which it did not accept: the run stays "clean"
         \* unless the reply was malformed (reported by RespFits) or handed over too late
+        \* (nor when the network handed it something else as well)
         /\ clean' = IF e.ok THEN clean
-                    ELSE IF phase = "resp" THEN clean /\ ~rep.bad /\ ~e.late
+                    ELSE IF phase = "resp" /\ tries = 0 THEN clean /\ ~rep.bad /\ ~e.late
                     ELSE FALSE
         /\ aux' = NoAux
         /\ UNCHANGED <<now, prov, sess, used, seen, pre>>
@@ -148,13 +162,21 @@ TNext ==
         /\ prov' = ProvOf(e.prov)
         /\ rep' = IF e.ans
                   THEN [k |-> "probe", n |-> e.n, u |-> e.u, cookies |-> e.cookies, sess |-> 0, size |-> e.size,
-                        bad |-> e.bad, tr |-> e.tr]
+                        bad |-> e.bad, tr |-> e.tr, ck |-> e.ck, kv |-> e.kv, fresh |-> e.kb = 0]
                   ELSE [k |-> "dropped", n |-> e.n, u |-> e.u, cookies |-> << >>, sess |-> 0, size |-> 0,
-                        bad |-> FALSE, tr |-> e.tr]
+                        bad |-> FALSE, tr |-> e.tr, ck |-> e.ck, kv |-> e.kv, fresh |-> e.kb = 0]
         /\ seen' = seen \cup Ids(e.cookies)
         /\ obs' = "probe"
-        /\ aux' = [NoAux EXCEPT !.opens = AllOpen(e.cookies), !.lens = AllLen(e.cookies), !.ans = e.ans]
+        /\ aux' = [NoAux EXCEPT !.opens = AllOpen(e.cookies), !.lens = AllLen(e.cookies), !.ans = e.ans,
+                                !.nas = NasOf(e.prov)]
         /\ UNCHANGED <<now, pool, sess, used, phase, net, pre, clean>>
+     \/ /\ e.ev = "stale"
+        /\ obs' = "stale" /\ aux' = NoAux
+        /\ UNCHANGED <<now, prov, pool, sess, used, seen, phase, net, rep, pre, clean>>
+     \/ /\ e.ev = "stray"
+        /\ pool' = e.pool
+        /\ rep' = NoMsg /\ obs' = "stray" /\ aux' = NoAux
+        /\ UNCHANGED <<now, prov, sess, used, seen, phase, net, pre, clean>>
      \/ /\ e.ev = "fend"
         /\ phase' = "idle" /\ net' = NoMsg /\ rep' = NoMsg /\ obs' = "fail" /\ aux' = NoAux
         /\ UNCHANGED <<now, prov, pool, sess, used, seen, pre, clean>>
@@ -238,17 +260,54 @@ StrictStep ==
        /\ SReply(rep', net.ncookie + net.nph, net.cookie.sess, "ntp"))
   /\ Dr("norep", obs' = "norep" => (net.bad \/ ~KeyValid(net.cookie.key)) /\ prov' = prov)
   /\ Dr("probe", obs' = "probe" =>
-       /\ aux'.ans = UidAccepted(rep'.u)
-       /\ (IF aux'.ans THEN SReply(rep', rep'.n, 0, "probe") ELSE prov' = CurrentP(prov, now)))
+       LET pk == IF rep'.fresh THEN CurrentP(prov, now) ELSE prov
+           kv == ValidAt(pk, rep'.ck, now)
+           pv == CurrentP(pk, now)
+           x  == ReplyFor("probe", rep'.n, 0, pv, rep'.u)
+       IN /\ rep'.kv = kv
+          /\ (rep'.fresh => rep'.ck = pk.cur)
+          /\ aux'.ans = (UidAccepted(rep'.u) /\ kv)
+          /\ IF aux'.ans
+             THEN /\ prov' = pv
+                  /\ rep'.bad = x.bad /\ rep'.size = x.size
+                  /\ (~rep'.bad => (Len(rep'.cookies) = Len(x.cookies) /\ KeysOf(rep'.cookies) \subseteq {pv.cur}))
+             ELSE prov' = pk)
   /\ Dr("store", obs' = "store" =>
-       /\ phase = "resp" /\ ~rep.bad
+       /\ phase = "resp" /\ ~rep.bad /\ tries <= MaxRetries
        /\ IdSeq(pool') = IdSeq(pool \o rep.cookies))
-  /\ Dr("fail", (obs' = "fail" /\ ~aux.fn /\ phase # "idle") => (IdSeq(pool') = IdSeq(pool) /\ (phase = "resp" => rep.bad)))
+  /\ Dr("fail", (obs' = "fail" /\ ~aux.fn /\ phase # "idle") =>
+       (IdSeq(pool') = IdSeq(pool) /\ (phase = "resp" => (rep.bad \/ tries > MaxRetries))))
+  /\ Dr("stray", obs' = "stray" => IdSeq(pool') = IdSeq(pool))
   /\ Dr("nosend", (obs' = "fail" /\ phase = "idle" /\ ~aux.fn /\ pool # << >>) => IdSeq(pool') = IdSeq(Tail(pool)))
   /\ Dr("tick", obs' = "tick" => (prov' = prov /\ now' > now))
   /\ Dr("cookielen", aux'.lens)
   /\ Dr("constants", CookieLen = 124)
 TStrictProp == [][StrictStep]_tvars
+
+(***************************************************************************)
+(* C12 on the same records (cfg _c12): the clause of KeyProvider.tla about  *)
+(* the key the servers seal new cookies with, for every cookie of every     *)
+(* key-exchange message and reply (IP and SCION listener), at the instant   *)
+(* it was issued.  Instants: what the provider's clock read when a key was  *)
+(* generated / expires is a whole number nb / na of 12 h units after an     *)
+(* earlier reading; the issue of a cookie at model time `now` is a strictly *)
+(* later reading less than a unit after `now`.  In 6 h units 2 * nb, 2 * na *)
+(* and 2 * now + 1 compare with every multiple of 12 h exactly as the real  *)
+(* instants do.                                                             *)
+(***************************************************************************)
+KP == INSTANCE KeyProvider WITH Day <- 2 * Day, Gaps <- {}, Horizon <- 0, now <- 0, keys <- << >>,
+                                currentID <- 0, generatedAt <- 0, ret <- 0, issued <- << >>, seen <- {}
+IssuedNow == obs \in {"rekey", "serve", "probe"} /\ rep.k \in {"ke", "ntp", "probe"}
+\* (a cookie that names no key the provider holds is C11's business: FreshCookiesOpen)
+Judged12(c) == c.key \in DOMAIN prov.keys /\ c.key \in DOMAIN aux.nas
+KeyRec(c) == [nb |-> 2 * prov.keys[c.key], na |-> 2 * aux.nas[c.key]]
+C12Monitor ==
+  /\ Mon("SealedWithCurrent", IssuedNow =>
+          \A i \in DOMAIN rep.cookies :
+             Judged12(rep.cookies[i]) => KP!SealedWithCurrent(2 * now + 1, KeyRec(rep.cookies[i])))
+  /\ Mon("SealedLifetime", IssuedNow =>
+          \A i \in DOMAIN rep.cookies :
+             Judged12(rep.cookies[i]) => KP!SealedLifetime(2 * now + 1, KeyRec(rep.cookies[i])))
 
 \* the whole trace must be consumed (a TLC evaluation error or a record that
 \* matches no disjunct of TNext would otherwise end the behaviour silently)
